@@ -64,6 +64,7 @@ struct Ex<'a> {
     depth: usize,
     ret: Option<Val>,
     release_plus: bool,
+    consts: HashMap<String, u64>, // `const NAME: usize = LIT;` items of the translated files
     opaque: Vec<String>, // helpers that are applied (as their generated `Gen.*` definition) instead of inlined
 }
 
@@ -75,7 +76,7 @@ fn lit_u64(l: &syn::LitInt) -> R<u64> {
 
 impl<'a> Ex<'a> {
     fn new(fns: &'a HashMap<String, syn::ImplItemFn>) -> Self {
-        Ex { env: HashMap::new(), lets: Vec::new(), fresh: 0, fns, depth: 0, ret: None, release_plus: false, opaque: Vec::new() }
+        Ex { env: HashMap::new(), lets: Vec::new(), fresh: 0, fns, depth: 0, ret: None, release_plus: false, consts: HashMap::new(), opaque: Vec::new() }
     }
     fn bind(&mut self, e: String) -> Val {
         self.fresh += 1;
@@ -148,6 +149,7 @@ impl<'a> Ex<'a> {
     fn items(&mut self, v: Val) -> R<Vec<Val>> {
         match v {
             Val::List(l) => Ok(l),
+            Val::Arr(a) => Ok(a),
             o => {
                 let (k, a, n) = self.sliceable_val(o, None)?;
                 match self.env.get(&k) {
@@ -403,7 +405,13 @@ impl<'a> Ex<'a> {
             Expr::Group(g) => self.eval(&g.expr),
             Expr::Path(p) => {
                 let id = p.path.get_ident().ok_or("qualified path as value")?.to_string();
-                self.env.get(&id).cloned().ok_or(format!("unknown variable {id}"))
+                if let Some(v) = self.env.get(&id) {
+                    return Ok(v.clone());
+                }
+                if let Some(c) = self.consts.get(&id) {
+                    return Ok(Val::N(*c));
+                }
+                Err(format!("unknown variable {id}"))
             }
             Expr::Range(r) => {
                 let mut get = |x: &Option<Box<Expr>>| -> R<Option<usize>> {
@@ -513,10 +521,10 @@ impl<'a> Ex<'a> {
                         }
                     }
                 }
-                let (k, idx) = self.place_key(&r.expr)?;
-                match idx {
-                    Some(i) => Ok(Val::ElemRef(k, i)),
-                    None => Ok(Val::Ref(k)),
+                match self.place_key(&r.expr) {
+                    Ok((k, Some(i))) => Ok(Val::ElemRef(k, i)),
+                    Ok((k, None)) => Ok(Val::Ref(k)),
+                    Err(_) => self.eval(&r.expr), // a temporary: `&x.to_le_bytes()`
                 }
             }
             Expr::Binary(b) => {
@@ -546,7 +554,7 @@ impl<'a> Ex<'a> {
                 }
                 self.call_with_self(&fname, Some(&prefix), args)
             }
-            Expr::MethodCall(m) if matches!(m.method.to_string().as_str(), "len" | "is_empty" | "iter" | "iter_mut" | "zip" | "chunks_exact" | "clone_from_slice" | "copy_from_slice" | "get" | "get_mut" | "unwrap_or" | "unwrap_or_default" | "as_slice") => {
+            Expr::MethodCall(m) if matches!(m.method.to_string().as_str(), "len" | "is_empty" | "iter" | "iter_mut" | "zip" | "chunks_exact" | "clone_from_slice" | "copy_from_slice" | "get" | "get_mut" | "unwrap_or" | "unwrap_or_default" | "as_slice" | "split_at" | "split_at_mut" | "to_le_bytes") => {
                 let name = m.method.to_string();
                 match name.as_str() {
                     "len" | "is_empty" => {
@@ -556,6 +564,34 @@ impl<'a> Ex<'a> {
                     "as_slice" => {
                         let (k, a, n) = self.sliceable(&m.receiver)?;
                         Ok(Val::Slice(k, a, n))
+                    }
+                    "split_at" | "split_at_mut" => {
+                        let (k, a, n) = self.sliceable(&m.receiver)?;
+                        let Some(Val::N(at)) = m.args.first().map(|x| self.eval(x)).transpose()? else { return Err("split point".into()) };
+                        let at = at as usize;
+                        if at > n {
+                            return Err("split_at out of bounds (the source would panic)".into());
+                        }
+                        Ok(Val::Tup(vec![Val::Slice(k.clone(), a, at), Val::Slice(k, a + at, n - at)]))
+                    }
+                    "to_le_bytes" => {
+                        // `u64::to_le_bytes` / `u32::to_le_bytes`: byte i = bits 8i..8i+8
+                        let v = self.eval(&m.receiver)?;
+                        let v = match v {
+                            Val::Ref(k) => self.env.get(&self.chase(k)).cloned().ok_or("dangling")?,
+                            Val::ElemRef(k, i) => match self.env.get(&k) {
+                                Some(Val::Arr(a)) if i < a.len() => a[i].clone(),
+                                _ => return Err("dangling element".into()),
+                            },
+                            o => o,
+                        };
+                        match v {
+                            Val::W32(x) => Ok(Val::Arr((0..4).map(|i| Val::B(format!("(BitVec.extractLsb' {} 8 {x})", 8 * i))).collect())),
+                            o => {
+                                let w = self.word(&o)?;
+                                Ok(Val::Arr((0..8).map(|i| Val::B(format!("(BitVec.extractLsb' {} 8 {w})", 8 * i))).collect()))
+                            }
+                        }
                     }
                     "iter" => {
                         let v = self.eval(&m.receiver)?;
@@ -659,6 +695,9 @@ impl<'a> Ex<'a> {
                 let _ = &ty;
                 match ty.as_str() {
                     "u32" => {
+                        if let Val::N(n) = v {
+                            return Ok(Val::W32(format!("({}#32)", n & 0xFFFF_FFFF)));
+                        }
                         let w = self.word(&v)?;
                         Ok(Val::W32(format!("(BitVec.setWidth 32 {w})")))
                     }
@@ -684,6 +723,18 @@ impl<'a> Ex<'a> {
                             Val::W32(x) => Ok(self.bind(format!("(BitVec.setWidth 64 {x})"))),
                             Val::B(x) => Ok(self.bind(format!("(BitVec.setWidth 64 {x})"))),
                             o => Ok(o),
+                        };
+                    }
+                    if segs.last().map(|s| s == "size_of").unwrap_or(false) && c.args.is_empty() {
+                        let ty = match p.path.segments.last().map(|s| &s.arguments) {
+                            Some(syn::PathArguments::AngleBracketed(ab)) => ab.args.first().map(|a| quote::quote!(#a).to_string()).unwrap_or_default(),
+                            _ => String::new(),
+                        };
+                        return match ty.as_str() {
+                            "u64" | "i64" => Ok(Val::N(8)),
+                            "u32" | "i32" => Ok(Val::N(4)),
+                            "u8" => Ok(Val::N(1)),
+                            _ => Err(format!("size_of::<{ty}>")),
                         };
                     }
                     if segs == ["u64", "from_le_bytes"] && c.args.len() == 1 {
@@ -830,22 +881,7 @@ impl<'a> Ex<'a> {
                 if let Pat::Type(t) = pat {
                     pat = &t.pat;
                 }
-                match pat {
-                    Pat::Ident(i) => {
-                        self.env.insert(i.ident.to_string(), v);
-                    }
-                    Pat::Tuple(t) => {
-                        let Val::Tup(vs) = v else { return Err("tuple pattern on non-tuple".into()) };
-                        for (p, x) in t.elems.iter().zip(vs) {
-                            if let Pat::Ident(i) = p {
-                                self.env.insert(i.ident.to_string(), x);
-                            } else {
-                                return Err("nested pattern".into());
-                            }
-                        }
-                    }
-                    _ => return Err("let pattern".into()),
-                }
+                self.bind_pat(pat, v)?;
                 Ok(Val::Unit)
             }
             Stmt::Expr(e, semi) => {
@@ -886,6 +922,17 @@ impl<'a> Ex<'a> {
                 Ok(())
             }
             Pat::Type(t) => self.bind_pat(&t.pat, v),
+            Pat::Reference(r) => {
+                let v = match v {
+                    Val::Ref(k) => self.env.get(&self.chase(k)).cloned().ok_or("dangling")?,
+                    Val::ElemRef(k, i) => match self.env.get(&k) {
+                        Some(Val::Arr(a)) if i < a.len() => a[i].clone(),
+                        _ => return Err("dangling element".into()),
+                    },
+                    o => o,
+                };
+                self.bind_pat(&r.pat, v)
+            }
             _ => Err("pattern".into()),
         }
     }
@@ -988,9 +1035,16 @@ fn main() {
                         fns.insert(f.sig.ident.to_string(), f.clone());
                     }
                 }
+            } else if im.trait_.as_ref().map(|t| t.1.segments.last().map(|s| s.ident == "HighwayHash").unwrap_or(false)).unwrap_or(false) {
+                for ii in &im.items {
+                    if let ImplItem::Fn(f) = ii {
+                        fns.insert(format!("HighwayHash::{}", f.sig.ident), f.clone());
+                    }
+                }
             }
         }
     }
+    let mut consts: HashMap<String, u64> = HashMap::new();
     // src/internal.rs: `HashPacket`'s inherent methods (as `HashPacket::name`) and `unordered_load3`
     if let Some(ip) = args.get(4) {
         if let Ok(isrc) = std::fs::read_to_string(ip) {
@@ -1002,6 +1056,15 @@ fn main() {
                             for ii in &im.items {
                                 if let ImplItem::Fn(f) = ii {
                                     fns.insert(format!("{ty}::{}", f.sig.ident), f.clone());
+                                }
+                            }
+                        }
+                        Item::Const(c) => {
+                            if let Expr::Lit(l) = &*c.expr {
+                                if let Lit::Int(i) = &l.lit {
+                                    if let Ok(n) = lit_u64(i) {
+                                        consts.insert(c.ident.to_string(), n);
+                                    }
                                 }
                             }
                         }
@@ -1017,7 +1080,7 @@ fn main() {
     let mut out = String::new();
     let mut thms = String::new();
     let mut status: Vec<(String, String)> = Vec::new();
-    out.push_str("-- GENERATED by /verif/harness/facts (coregen) from src/portable.rs; do not edit.\nimport HH.Portable\nset_option linter.unusedVariables false\nnamespace HH.Gen\n\n");
+    out.push_str("-- GENERATED by /verif/harness/facts (coregen) from src/portable.rs; do not edit.\nimport HH.Portable\nset_option linter.unusedVariables false\nset_option maxRecDepth 8192\nnamespace HH.Gen\n\n");
 
     // helper closure style: run one translation, append on success
     let mut emit = |name: &str, r: R<(String, String)>| match r {
@@ -1201,6 +1264,30 @@ fn main() {
             ex.block(&f.block).map_err(|e| format!("length {n}: {e}"))?;
             let _ = write!(d, "def updateRemainder{n} (s : St){} : St :=\n{}  {}\n", binders(32), ex.lets_text(), st_text(&ex)?);
             let _ = write!(t, "theorem updateRemainder{n}_eq (s : St){} : updateRemainder{n} s {} = P.updateRemainder ⟨s, ⟨{}, {n}⟩⟩ := by\n  show _ = P.update (P.updateLanes s {n}) (P.dataToLanes (P.remainder {}))\n  rw [← remainder{n}_eq, ← update_eq, ← updateLanes_eq]; unfold updateRemainder{n} remainder{n}; rw [dataToLanes_eq]\n", binders(32), bvars(32).join(" "), blist(32), blist(n));
+        }
+        Ok((d, t))
+    })());
+
+    // checkpoint() for every pending length 0..=32: lanes and the 32 buffer bytes symbolic
+    emit("checkpoint", (|| {
+        let f = fns.get("HighwayHash::checkpoint").ok_or("missing")?.clone();
+        let mut d = String::new();
+        let mut t = String::new();
+        for n in 0..=32usize {
+            let mut ex = Ex::new(&fns);
+            ex.consts = consts.clone();
+            self_env(&mut ex);
+            ex.env.insert("self.buffer.buf".into(), Val::Arr(bvars(32).into_iter().map(Val::B).collect()));
+            ex.env.insert("self.buffer.buf_index".into(), Val::N(n as u64));
+            let r = ex.block(&f.block).map_err(|e| format!("length {n}: {e}"))?;
+            let r = ex.ret.take().unwrap_or(r);
+            let Val::Arr(a) = r else { return Err("result shape".into()) };
+            if a.len() != 164 {
+                return Err("checkpoint length".into());
+            }
+            let bs: Vec<String> = a.iter().map(|x| ex.byte(x)).collect::<R<_>>()?;
+            let _ = write!(d, "def checkpoint{n} (s : St){} : List (BitVec 8) :=\n{}  [{}]\n", binders(32), ex.lets_text(), bs.join(", "));
+            let _ = write!(t, "theorem checkpoint{n}_eq (s : St){} : checkpoint{n} s {} = P.checkpoint ⟨s, ⟨{}, {n}⟩⟩ := rfl\n", binders(32), bvars(32).join(" "), blist(32));
         }
         Ok((d, t))
     })());
